@@ -31,7 +31,7 @@ func genMeshOp(r *rand.Rand, kind int) meshOp {
 	switch kind {
 	case 0, 4:
 		g := genQuat(r)
-		rot := quatMatrix(qOf(g.q))
+		rot := g.rotation()
 		op := meshOp{site: "Mesh.Rotate", apply: func(m modeling.Mesh) modeling.Mesh { return m.Rotate(g.q) }}
 		if kind == 4 {
 			op.site = "meshops.RotateAttribute3D"
